@@ -75,6 +75,17 @@ theorem exact_of_lc_ranked {s : State} {rank : Nat → Nat} (hlc : LC s) (hr : R
         exact Reach.step (ih _ hlt g hg (isPar_iff.mp hp).2.1 rfl q hq') hedge
   exact key _ e he hl rfl q
 
+/-- The executable reference closure of the driver (`closureIter`, breadth-first rounds over
+direct parents) computes exactly the specification's reachability. -/
+theorem closure_is_reach (s : State) (x p : Nat) :
+    Reach s p x ↔ ∃ k, p ∈ closureIter s x k :=
+  ⟨mem_closureIter_of_reach, fun ⟨k, h⟩ => reach_of_mem_closureIter k p h⟩
+
+/-- A ranked graph has no entry that reaches itself. -/
+theorem ranked_no_self_reach {s : State} {rank : Nat → Nat} (h : Ranked s rank) (x : Nat) :
+    ¬ Reach s x x :=
+  fun hr => Nat.lt_irrefl _ (ranked_acyclic h x x hr)
+
 /-! ## histories -/
 
 /-- The state after one operation of a history (`none` = the operation does not finish). -/
